@@ -1,5 +1,6 @@
 import DaeVerif.C18.Proofs
 import DaeVerif.C18.History
+import DaeVerif.C18.Names
 /-!
 # C18 — property theorems
 
@@ -376,6 +377,19 @@ example :
     let es := [Event.dnsUpdate "a.test".toList true 2000000000 [], Event.advance 1999999999]
     (hasKnowledge (run {} es) (cacheKey "a.test".toList true)).2 = true ∧
     (hasKnowledge (run {} (es ++ [Event.advance 1])) (cacheKey "a.test".toList true)).2 = false := by decide
+
+/-- upper case: the knowledge key ignores ASCII case (the verified set is case-sensitive, but the
+sniffers lower-case before `ChooseDialTarget` sees the name). -/
+theorem knowledge_key_ignores_case (d : Str) (is4 : Bool) (w : World) :
+    cacheKey (d.map lowerAscii) is4 = cacheKey d is4 ∧
+    (hasKnowledge w (cacheKey (d.map lowerAscii) is4)).2 = (hasKnowledge w (cacheKey d is4)).2 := by
+  have e : cacheKey (d.map lowerAscii) is4 = cacheKey d is4 := by
+    unfold cacheKey; rw [canonicalName_lower]
+  exact ⟨e, by rw [e]⟩
+
+example : cacheKey "WWW.Example.COM".toList true = cacheKey "www.example.com".toList true := by decide
+-- trailing dot: same key with and without it
+example : cacheKey "www.example.com.".toList false = cacheKey "www.example.com".toList false := by decide
 
 /-- the verified set only ever contains names for which a probe completed with an address from
 some bootstrap resolver. -/
